@@ -8,62 +8,110 @@ Import ListNotations.
 Section Theorems.
   Variable content_of : modid -> stamp -> content.
   Variable imports : modid -> content -> opts -> list modid.
+  Variable probes : modid -> content -> opts -> list modid.
   Variable check : modid -> content -> opts -> (modid -> option ihash) -> result.
   Variable analyze : list modid -> (modid -> content) -> opts -> (modid -> option ihash) -> modid -> result.
   Variable sccs_of : list (modid * list modid) -> list (list modid).
   Variable reach : list (modid * list modid) -> modid -> modid -> bool.
   Variable sdo_of : list modid -> opts -> nat.
-  Hypothesis AC : AnalysisContract content_of imports check analyze.   (* contract, monitored not proved *)
-  Hypothesis GC : GraphContract sccs_of reach.                          (* contract, checked on every observed SCC list *)
+  Variable ign_of : modid -> stamp -> opts -> bool.
+  Variable blocker : modid -> content -> bool.
+  Hypothesis AC : AnalysisContract imports probes check analyze.   (* contract, monitored not proved *)
+  Hypothesis GC : GraphContract sccs_of reach.                     (* contract, checked on every observed SCC list *)
 
-  (* every run, from a cache satisfying the invariant, leaves a cache satisfying the invariant *)
+  Notation CacheOK := (CacheOK content_of imports probes check blocker).
+  Notation ProbeFresh := (ProbeFresh content_of probes ign_of).
+  Notation HistOK := (HistOK content_of imports probes analyze sccs_of reach sdo_of ign_of blocker).
+  Notation Unique := (Unique content_of check ign_of).
+  Notation warm := (warm content_of imports probes analyze sccs_of reach sdo_of ign_of blocker).
+  Notation cold := (cold content_of imports probes analyze sccs_of reach sdo_of ign_of blocker).
+  Notation runs := (runs content_of imports probes analyze sccs_of reach sdo_of ign_of blocker).
+
+  (* every run (also one aborted by a blocking error) from a cache satisfying the invariant leaves such a cache,
+     provided the dependency lists it reuses are still right (ProbeFresh: no probed `from pkg import name` that was
+     not a module has become one) *)
   Theorem run_preserves_CacheOK : forall c fs o now,
-    CacheOK content_of imports check c -> Proofs.FSOK fs ->
-    CacheOK content_of imports check (snd (warm content_of imports analyze sccs_of reach sdo_of c fs o now)).
-  Proof. exact (p_run_preserves_CacheOK _ _ _ _ _ _ _ AC GC). Qed.
+    CacheOK c -> ProbeFresh c o fs -> Proofs.FSOK fs -> CacheOK (snd (warm c fs o now)).
+  Proof. exact (p_run_preserves_CacheOK _ _ _ _ _ _ _ _ _ _ AC GC). Qed.
 
-  (* a warm run from ANY cache satisfying the invariant reports what the cold run reports *)
+  (* a warm run from ANY cache satisfying the invariant reports what the cold run reports (both abort, or both
+     report the same per-file diagnostics and status) *)
   Theorem warm_eq_cold : forall c fs o n n',
-    CacheOK content_of imports check c -> Proofs.FSOK fs ->
-    output fs (warm content_of imports analyze sccs_of reach sdo_of c fs o n)
-    = output fs (cold content_of imports analyze sccs_of reach sdo_of fs o n').
-  Proof. exact (p_warm_eq_cold _ _ _ _ _ _ _ AC GC). Qed.
+    CacheOK c -> ProbeFresh c o fs -> Proofs.FSOK fs -> Unique fs o ->
+    output fs (warm c fs o n) = output fs (cold fs o n').
+  Proof. exact (p_warm_eq_cold _ _ _ _ _ _ _ _ _ _ AC GC). Qed.
 
-  (* the full statement of Statement.v: all finite histories of file-system states (and options), a run after each *)
-  Theorem warm_eq_cold_all_histories :
-    warm_equals_cold_for_all_histories content_of imports analyze sccs_of reach sdo_of.
-  Proof. exact (p_history _ _ _ _ _ _ _ AC GC). Qed.
+  (* all finite histories before the final state (cycles, aborted runs, option changes), side condition HistOK *)
+  Theorem warm_eq_cold_all_histories_partial : forall (h : list (FS * opts)) (fs : FS) (o : opts) (n n' : nat),
+    HistOK empty_store 0 h -> ProbeFresh (runs empty_store 0 h) o fs -> Proofs.FSOK fs -> Unique fs o ->
+    output fs (warm (runs empty_store 0 h) fs o n) = output fs (cold fs o n').
+  Proof. exact (p_history_partial _ _ _ _ _ _ _ _ _ _ AC GC). Qed.
+
+  (* uniqueness is a THEOREM for programs whose imports and reported indirect dependencies are well-founded ... *)
+  Theorem unique_for_acyclic_programs : forall fs o rank,
+    Acyclic content_of imports probes check fs o rank -> Unique fs o.
+  Proof. exact (p_acyclic_unique content_of imports probes check analyze ign_of AC). Qed.
+
+  (* ... and for programs with import cycles it follows from the SCC-as-a-unit assumption LevelUnique (rank = index of
+     the SCC): two solutions that agree on all lower SCCs agree on this SCC *)
+  Theorem unique_from_scc_uniqueness : forall fs o rank,
+    LevelUnique content_of check ign_of fs o rank -> Unique fs o.
+  Proof. exact (p_level_unique content_of imports probes check analyze ign_of AC). Qed.
+
+  (* hence, with NO uniqueness assumption: on an acyclic final program, warm = cold *)
+  Theorem warm_eq_cold_all_histories_acyclic : forall (h : list (FS * opts)) (fs : FS) (o : opts) rank (n n' : nat),
+    HistOK empty_store 0 h -> ProbeFresh (runs empty_store 0 h) o fs -> Proofs.FSOK fs ->
+    Acyclic content_of imports probes check fs o rank ->
+    output fs (warm (runs empty_store 0 h) fs o n) = output fs (cold fs o n').
+  Proof.
+    exact (fun h fs o rank n n' Hh HP Hfs Ha =>
+             p_history_partial _ _ _ _ _ _ _ _ _ _ AC GC h fs o n n' Hh HP Hfs (p_acyclic_unique content_of imports probes check analyze ign_of AC fs o rank Ha)).
+  Qed.
+
+  (* the full statement of Statement.v for programs that never probe (`from pkg import x` only for non-modules) *)
+  Theorem warm_eq_cold_all_histories_noprobes : (forall m c o, probes m c o = []) ->
+    (forall fs o, Proofs.FSOK fs -> Unique fs o) ->
+    warm_equals_cold_for_all_histories content_of imports probes analyze sccs_of reach sdo_of ign_of blocker.
+  Proof. exact (p_history_noprobes _ _ _ _ _ _ _ _ _ _ AC GC). Qed.
 
   (* the same with the property's edits spelled out: any start, any list of Change/Add/Delete edits *)
-  Theorem warm_eq_cold_all_edit_lists : forall (fs0 : FS) (es : list edit) (e : edit) (o : opts) n n',
+  Theorem warm_eq_cold_all_edit_lists_noprobes : (forall m c o, probes m c o = []) ->
+    forall (fs0 : FS) (es : list edit) (e : edit) (o : opts) n n',
     Proofs.FSOK fs0 ->
     let visited := fs0 :: states fs0 es in
     let final := apply_edit (last visited fs0) e in
-    output final (warm content_of imports analyze sccs_of reach sdo_of
-                       (runs content_of imports analyze sccs_of reach sdo_of empty_store 0 (map (fun x => (x, o)) visited))
-                       final o n)
-    = output final (cold content_of imports analyze sccs_of reach sdo_of final o n').
-  Proof. exact (p_edits _ _ _ _ _ _ _ AC GC). Qed.
+    Unique final o ->
+    output final (warm (runs empty_store 0 (map (fun x => (x, o)) visited)) final o n) = output final (cold final o n').
+  Proof. exact (p_edits _ _ _ _ _ _ _ _ _ _ AC GC). Qed.
 End Theorems.
 
 Print Assumptions run_preserves_CacheOK.
 Print Assumptions warm_eq_cold.
-Print Assumptions warm_eq_cold_all_histories.
-Print Assumptions warm_eq_cold_all_edit_lists.
+Print Assumptions warm_eq_cold_all_histories_partial.
+Print Assumptions unique_for_acyclic_programs.
+Print Assumptions unique_from_scc_uniqueness.
+Print Assumptions warm_eq_cold_all_histories_acyclic.
+Print Assumptions warm_eq_cold_all_histories_noprobes.
+Print Assumptions warm_eq_cold_all_edit_lists_noprobes.
 
 (* ------------------------------------------------------------------ the hypotheses are satisfiable *)
-(* An instance in which diagnostics really depend on the interfaces of the imported modules. *)
+(* An instance in which diagnostics really depend on the interfaces of the imported (and probed) modules. *)
 Definition ex_content_of (m : modid) (s : stamp) : content := s.
 Definition ex_imports (m : modid) (c : content) (o : opts) : list modid := if Nat.even c then [] else [c / 2].
-Definition ex_check (m : modid) (c : content) (o : opts) (env : modid -> option ihash) : result :=
+Definition ex_probes (m : modid) (c : content) (o : opts) : list modid := if Nat.eqb c 6 then [3] else [].
+Definition ex_noprobes (m : modid) (c : content) (o : opts) : list modid := [].
+Definition ex_check (pr : modid -> content -> opts -> list modid)
+           (m : modid) (c : content) (o : opts) (env : modid -> option ihash) : result :=
   {| r_iface := S c;
-     r_errors := map (fun d => match env d with Some h => h | None => 0 end) (ex_imports m c o);
+     r_errors := map (fun d => match env d with Some h => h | None => 0 end) (ex_imports m c o ++ pr m c o);
      r_indirect := [] |}.
-Definition ex_analyze (S0 : list modid) (src : modid -> content) (o : opts) (env : modid -> option ihash) (m : modid) :=
-  ex_check m (src m) o (extend env S0 (fun x => S (src x))).
+Definition ex_analyze pr (S0 : list modid) (src : modid -> content) (o : opts) (env : modid -> option ihash) (m : modid) :=
+  ex_check pr m (src m) o (extend env S0 (fun x => S (src x))).
 Definition ex_sccs (dm : list (modid * list modid)) : list (list modid) := [map fst dm].
 Definition ex_reach (dm : list (modid * list modid)) (m d : modid) : bool := mem d (map fst dm).
 Definition ex_sdo (l : list modid) (o : opts) : nat := length l.
+Definition ex_ign (m : modid) (s : stamp) (o : opts) : bool := Nat.eqb m 7.     (* module 7 is followed silently *)
+Definition ex_blocker (m : modid) (c : content) : bool := Nat.eqb c 99.          (* content 99 has a syntax error *)
 
 Fact ex_one : forall (l : list modid) L1 S0 L2, [l] = L1 ++ S0 :: L2 -> L1 = [] /\ S0 = l.
 Proof.
@@ -71,18 +119,14 @@ Proof.
   exfalso. eapply app_cons_not_nil; eauto.
 Qed.
 
-Example analysis_contract_satisfiable : AnalysisContract ex_content_of ex_imports ex_check ex_analyze.
+Example analysis_contract_satisfiable : forall pr, AnalysisContract ex_imports pr (ex_check pr) (ex_analyze pr).
 Proof.
-  constructor.
+  intros pr. constructor.
   - intros m c o env env' H. unfold ex_check. f_equal. apply map_ext_in. intros d Hd. rewrite H; auto.
   - simpl; tauto.
   - simpl; tauto.
   - simpl; intros; discriminate.
   - intros; reflexivity.
-  - intros fs o I E I' E' HFS S1 S2 m G. apply inG_lookup in G as [s Hs].
-    destruct (S1 _ _ Hs) as [A1 A2]. destruct (S2 _ _ Hs) as [B1 B2]. simpl in *. split. congruence.
-    rewrite A2, B2. apply map_ext_in. intros d _. unfold genv. destruct (inG fs d) eqn:G; auto.
-    apply inG_lookup in G as [s' Hs']. destruct (S1 _ _ Hs') as [C1 _]. destruct (S2 _ _ Hs') as [D1 _]. simpl in *. congruence.
 Qed.
 
 Example graph_contract_satisfiable : GraphContract ex_sccs ex_reach.
@@ -95,19 +139,76 @@ Proof.
   - intros dm L1 S0 L2 m d H Hm Hr. apply ex_one in H as [-> ->]. simpl. apply mem_In; auto.
 Qed.
 
-(* the main theorem instantiated: closed, no hypotheses left *)
-Example warm_eq_cold_instance :
-  warm_equals_cold_for_all_histories ex_content_of ex_imports ex_analyze ex_sccs ex_reach ex_sdo.
-Proof. exact (warm_eq_cold_all_histories _ _ _ _ _ _ _ analysis_contract_satisfiable graph_contract_satisfiable). Qed.
+(* in this instance every program (cyclic ones too) has a unique solution *)
+Example unique_satisfiable : forall pr fs o, Proofs.FSOK fs -> Unique ex_content_of (ex_check pr) ex_ign fs o.
+Proof.
+  intros pr fs o HFS I E I' E' S1 S2 m G. apply inG_lookup in G as [s Hs].
+  destruct (S1 _ _ Hs) as [A1 A2]. destruct (S2 _ _ Hs) as [B1 B2]. simpl in *. split. congruence.
+  rewrite A2, B2. destruct (ex_ign m s o); auto. apply map_ext_in. intros d _. unfold genv. destruct (inG fs d) eqn:G; auto.
+  apply inG_lookup in G as [s' Hs']. destruct (S1 _ _ Hs') as [C1 _]. destruct (S2 _ _ Hs') as [D1 _]. simpl in *. congruence.
+Qed.
 
-(* a concrete history on which something non-trivial happens: module 1 (content 3 imports module 1? no: 3/2 = 1)
-   ... module 5 imports module 2; editing module 2 changes module 5's diagnostics although 5 is unchanged *)
+(* the positive theorem instantiated (no probes): closed, no hypotheses left *)
+Example warm_eq_cold_instance :
+  warm_equals_cold_for_all_histories ex_content_of ex_imports ex_noprobes (ex_analyze ex_noprobes) ex_sccs ex_reach ex_sdo
+                                     ex_ign ex_blocker.
+Proof.
+  exact (warm_eq_cold_all_histories_noprobes _ _ _ _ _ _ _ _ _ _ (analysis_contract_satisfiable ex_noprobes)
+           graph_contract_satisfiable (fun _ _ _ => eq_refl) (unique_satisfiable ex_noprobes)).
+Qed.
+
 Definition ex_o := {| o_snap := 1; o_version := 1; o_plugin := 0 |}.
-Definition ex_fs1 : FS := [(5, 5); (2, 8)].    (* module 5 has content 5 -> imports module 2; module 2 content 8 *)
+
+(* ------------------------------------------------------------------ the FULL statement is refuted by the faithful model *)
+(* `from pkg import name` (module 1, content 6, probes module 3) while pkg/name.py (module 3) does not exist; then it is
+   added.  The cached lists of module 1 mention module 3 nowhere, so module 1 is judged fresh and its old diagnostics
+   are replayed.  Reproduced on the real tree: see notes/C02.md, finding F6. *)
+(* SCC function of the witness: singletons, dependencies first.  On the three dependency maps that occur below it
+   returns [[1]], [[3];[1]] (cold: 1 depends on 3) and [[3];[1]] (warm: 1 has no recorded dependency): all in
+   dependency order.  (It is not claimed to satisfy GraphContract on every graph.) *)
+Definition ex_sccs2 (dm : list (modid * list modid)) : list (list modid) := map (fun p => [fst p]) (rev dm).
+Definition ex_reach2 (dm : list (modid * list modid)) (m d : modid) : bool := false.
+
+Theorem warm_equals_cold_refuted :
+  exists content_of imports probes check analyze sccs_of reach sdo_of ign_of blocker,
+    AnalysisContract imports probes check analyze /\
+    (forall fs o, Proofs.FSOK fs -> Unique content_of check ign_of fs o) /\
+    ~ warm_equals_cold_for_all_histories content_of imports probes analyze sccs_of reach sdo_of ign_of blocker.
+Proof.
+  exists ex_content_of, ex_imports, ex_probes, (ex_check ex_probes), (ex_analyze ex_probes), ex_sccs2, ex_reach2, ex_sdo,
+         ex_ign, ex_blocker.
+  split; [apply analysis_contract_satisfiable|].
+  split; [apply unique_satisfiable|].
+  intro H. specialize (H [([(1, 6)], ex_o)] [(1, 6); (3, 4)] ex_o 2 1).
+  assert (A : forall fs' o', In (fs', o') [([(1, 6)], ex_o)] -> Statement.FSOK fs').
+  { intros fs' o' [X|[]]. inversion X; subst. repeat constructor; simpl; tauto. }
+  assert (B : Statement.FSOK [(1, 6); (3, 4)]).
+  { repeat constructor; simpl; intuition; discriminate. }
+  specialize (H A B). vm_compute in H. discriminate.
+Qed.
+Print Assumptions warm_equals_cold_refuted.
+
+(* an acyclic program in the sense of `Acyclic`: module 5 (content 5) imports module 2 (content 8, no imports) *)
+Definition ex_fs1 : FS := [(5, 5); (2, 8)].
 Definition ex_fs2 : FS := [(5, 5); (2, 10)].   (* module 2 edited *)
+Definition ex_fs3 : FS := [(5, 5); (2, 99)].   (* module 2 now has a syntax error *)
+Example acyclic_satisfiable : Acyclic ex_content_of ex_imports ex_noprobes (ex_check ex_noprobes) ex_fs1 ex_o (fun m => m).
+Proof.
+  intros m s d env Hs Hd [H|H]; [|inversion H].
+  simpl in Hs. destruct (Nat.eqb m 5) eqn:E5.
+  - apply Nat.eqb_eq in E5; subst. inversion Hs; subst. simpl in H. destruct H as [<-|[]]. simpl; lia.
+  - destruct (Nat.eqb m 2) eqn:E2; try discriminate. inversion Hs; subst. simpl in H. tauto.
+Qed.
+
+(* a concrete history: editing module 2 changes the diagnostics of the unchanged module 5; then a syntax error in
+   module 2 aborts the run (None) and leaves the cache usable; then the error is repaired *)
 Example ex_history_outputs :
-  let W := warm ex_content_of ex_imports ex_analyze ex_sccs ex_reach ex_sdo in
+  let W := warm ex_content_of ex_imports ex_noprobes (ex_analyze ex_noprobes) ex_sccs ex_reach ex_sdo ex_ign ex_blocker in
   let c1 := snd (W empty_store ex_fs1 ex_o 1) in
-  (output ex_fs1 (W empty_store ex_fs1 ex_o 1), output ex_fs2 (W c1 ex_fs2 ex_o 2))
-  = (([(5, Some [9]); (2, Some [])], true), ([(5, Some [11]); (2, Some [])], true)).
+  let c2 := snd (W c1 ex_fs2 ex_o 2) in
+  let c3 := snd (W c2 ex_fs3 ex_o 3) in
+  (output ex_fs1 (W empty_store ex_fs1 ex_o 1), output ex_fs2 (W c1 ex_fs2 ex_o 2),
+   output ex_fs3 (W c2 ex_fs3 ex_o 3), output ex_fs2 (W c3 ex_fs2 ex_o 4))
+  = (Some ([(5, Some [9]); (2, Some [])], true), Some ([(5, Some [11]); (2, Some [])], true),
+     None, Some ([(5, Some [11]); (2, Some [])], true)).
 Proof. vm_compute. reflexivity. Qed.
